@@ -33,6 +33,8 @@ def trees():
         L(11, "c"),
         R("VValidated", {"v": 1, "note": "ok"}, "a", kid=R("VValidated", {"v": 2}, kid=L(12))),
         R("VMany", {}, "b", items=(R("VReq", {}, "a", child=L(13)), R("VOne", {}, "xml", one=L(14)), L(15, "c"))),
+        # properties that are no constructor arguments (a per-instance stamp, a constant, a counter, a computed value)
+        R("VMany", {}, "a", items=(R("VStamp", {"v": 1}, None, kid=L(16)), R("VNonInit", {"v": 2}), R("VSerial", {"name": "t"}, "b"))),
         # property values that serialization passes through by reference: containers inside an Any-typed property
         R("VReq", {}, "a", child=R("VTyped", {"a": {"k": (1, 2), "inner": {"t": (3, (4,))}, "l": [5, (6,)]}, "t": (7, 8)})),
     ]
@@ -136,6 +138,7 @@ def _ops():
         "duplicate-the-loaded-tree": safe(lambda r, n: _CTX["loaded"].duplicate() if _CTX.get("loaded") is not None else None),
         "as_obj-payload-carrying-the-id-of-a-live-node": safe(_payload_with_foreign_id),
         "from_json-of-detached-twin-under-digest-size-1": safe(_collision_roundtrip),
+        "as_obj-of-a-payload-of-the-live-node-with-edited-non-init-properties": safe(_edited_payload_of_live_node),
         "failed-load-after-detach_self:unknown-class-at-the-root": _failed_load("unknown-field-type-at-the-root"),
         "failed-load-after-detach_self:unknown-origin-class": _failed_load("missing-origin-of-the-root"),
         "failed-load-after-detach_self:unknown-class-of-the-last-nested-node": _failed_load("nested"),
@@ -176,6 +179,26 @@ def _load_suffix_gap(r, n):
     d["id"] = "payload-root"
     _CTX["loaded"] = VMany.as_obj(d)
     return _CTX["loaded"]
+
+
+def _edited_payload_of_live_node(r, n):
+    """A payload of a node that is still alive, in which every non-constructor property was edited
+    (written by another process, an older version of the tree ...): loading it returns the live node
+    (its id is registered) and leaves it as it is."""
+    import dataclasses as dc
+
+    d = n.as_dict()
+    for f in dc.fields(n):
+        if f.init or f.name in ("id", "content_id") or f.name not in d:
+            continue
+        v = d[f.name]
+        if isinstance(v, bool):
+            d[f.name] = not v
+        elif isinstance(v, int):
+            d[f.name] = v + 1000
+        elif isinstance(v, str):
+            d[f.name] = v + "-edited"
+    return type(n).as_obj(d)
 
 
 def _collision_roundtrip(r, n):
